@@ -419,6 +419,76 @@ fn check_socket(count: &u32, case: &mut Case) -> Result<(), Fail> {
             return Err(Fail::new(p.signature(), format!("the one-shot resolver panicked while responses about the name it asked for were arriving: {}:{}: {}", p.file, p.line, p.msg)));
         }
     }
+    // ---- the async-tokio services: their own copies of the loops, on a current-thread runtime in a helper thread
+    let stop = std::sync::Arc::new(std::sync::atomic::AtomicBool::new(false));
+    let async_ready = std::sync::Arc::new(std::sync::atomic::AtomicBool::new(false));
+    let async_store_panic: std::sync::Arc<std::sync::Mutex<Option<meter::Panic>>> = Default::default();
+    let async_thread = {
+        let (stop, ready, sp) = (stop.clone(), async_ready.clone(), async_store_panic.clone());
+        std::thread::Builder::new().name("vp-async-services".into()).spawn(move || {
+            let Ok(rt) = tokio::runtime::Builder::new_current_thread().enable_all().build() else { return };
+            rt.block_on(async {
+                let mut responder = simple_mdns::async_discovery::SimpleMdnsResponder::new(10);
+                responder
+                    .add_resource(simple_dns::ResourceRecord::new(Name::new_unchecked("vp-canary-async.local"), simple_dns::CLASS::IN, 10, RData::A(simple_dns::rdata::A { address: 0x7f000002 })))
+                    .await;
+                responder
+                    .add_resource(simple_dns::ResourceRecord::new(
+                        Name::new_unchecked("vp-loc-async.local"),
+                        simple_dns::CLASS::IN,
+                        10,
+                        RData::LOC(simple_dns::rdata::LOC { version: 1, size: 0, horizontal_precision: 0, vertical_precision: 0, latitude: 0, longitude: 0, altitude: 0 }),
+                    ))
+                    .await;
+                let discovery = simple_mdns::async_discovery::ServiceDiscovery::new(InstanceInformation::new("vpselfasync".into()).with_socket_address("127.0.0.1:9".parse().unwrap()), SERVICE, 60);
+                ready.store(true, std::sync::atomic::Ordering::SeqCst);
+                while !stop.load(std::sync::atomic::Ordering::SeqCst) {
+                    tokio::time::sleep(std::time::Duration::from_millis(20)).await;
+                }
+                if let Ok(d) = &discovery {
+                    // the store must still be usable by the application
+                    let r = tokio::time::timeout(std::time::Duration::from_secs(2), d.get_known_services()).await;
+                    if r.is_err() {
+                        *sp.lock().unwrap() = Some(meter::Panic { msg: "get_known_services of the async discovery did not return within 2 s".into(), file: "simple-mdns/src/async_discovery/service_discovery.rs".into(), line: 0 });
+                    }
+                }
+            });
+        })
+    };
+    let t_wait = std::time::Instant::now();
+    while !async_ready.load(std::sync::atomic::Ordering::SeqCst) && t_wait.elapsed() < std::time::Duration::from_secs(2) {
+        std::thread::sleep(std::time::Duration::from_millis(10));
+    }
+    let async_up = async_ready.load(std::sync::atomic::Ordering::SeqCst) && probe(&sock, "vp-canary-async.local", 5);
+    if async_up {
+        case.class("async-services-ran");
+        let mut runner2 = proptest::test_runner::TestRunner::deterministic();
+        for i in 0..(*count).min(1500) {
+            let d = strat.new_tree(&mut runner2).unwrap().current();
+            let mut bytes = render_dg(&d);
+            bytes.truncate(8900);
+            if sock.send_to(&bytes, "224.0.0.251:5353").is_ok() {
+                sent += 1;
+            }
+            if i % 64 == 63 {
+                std::thread::sleep(std::time::Duration::from_millis(5));
+            }
+        }
+        let mut q = Packet::new_query(0x7779);
+        q.questions.push(simple_dns::Question::new(Name::new_unchecked("vp-loc-async.local"), simple_dns::QTYPE::ANY, simple_dns::QCLASS::ANY, true));
+        let qb = q.build_bytes_vec().unwrap();
+        for _ in 0..3 {
+            let _ = sock.send_to(&qb, "224.0.0.251:5353");
+        }
+        std::thread::sleep(std::time::Duration::from_millis(300));
+    } else {
+        case.class("async-services-skipped");
+    }
+    let async_alive = !async_up || probe(&sock, "vp-canary-async.local", 5);
+    stop.store(true, std::sync::atomic::Ordering::SeqCst);
+    if let Ok(t) = async_thread {
+        let _ = t.join();
+    }
     // valid queries whose reply cannot be built
     {
         let mut q = Packet::new_query(0x7778);
@@ -445,21 +515,87 @@ fn check_socket(count: &u32, case: &mut Case) -> Result<(), Fail> {
     if let Err(p) = known {
         return Err(Fail::new("c14:store-unusable", format!("get_known_services panicked after the datagrams: {}", p.msg)));
     }
+    if let Some(p) = async_store_panic.lock().unwrap().take() {
+        return Err(Fail::new("c14:store-unusable", format!("async discovery: {}", p.msg)));
+    }
+    ensure!(async_alive, "c14:responder-dead", "the async responder answered before the hostile datagrams and does not answer afterwards (5 retries)");
     ensure!(alive, "c14:responder-dead", "the responder answered before {} hostile datagrams and does not answer afterwards (5 retries)", sent);
+    Ok(())
+}
+
+// ---- readers and writers on the shared store at the same time
+
+fn enum_concurrent(t: Tier, shard: usize, _n: usize, f: &mut dyn FnMut(u32) -> bool) {
+    if shard < t.pick(2, 6) {
+        f(shard as u32);
+    }
+}
+
+fn check_concurrent(seed: &u32, case: &mut Case) -> Result<(), Fail> {
+    use proptest::strategy::ValueTree;
+    let mut mgr: ResourceRecordManager<'static> = ResourceRecordManager::new();
+    for r in super::c13::catalogue() {
+        apply_to_store(&mut mgr, &Op::AddAuth(r))?;
+    }
+    apply_to_store(&mut mgr, &Op::AddAuth(canary()))?;
+    let store = std::sync::Arc::new(RwLock::new(mgr));
+    let service_name = Name::new(SERVICE).unwrap().into_owned();
+    let full_name = Name::new("self._srv._tcp.local").unwrap().into_owned();
+    // deterministic datagrams
+    let mut runner = proptest::test_runner::TestRunner::new_with_rng(
+        proptest::test_runner::Config::default(),
+        proptest::test_runner::TestRng::from_seed(proptest::test_runner::RngAlgorithm::ChaCha, &[*seed as u8 + 1; 32]),
+    );
+    let strat = dg_strategy();
+    let dgs: Vec<Vec<u8>> = (0..400).map(|_| render_dg(&strat.new_tree(&mut runner).unwrap().current())).collect();
+    let dgs = std::sync::Arc::new(dgs);
+    let failures: std::sync::Arc<std::sync::Mutex<Vec<Fail>>> = Default::default();
+    let deadline = std::time::Instant::now() + std::time::Duration::from_millis(300);
+    let mut handles = Vec::new();
+    for t in 0..6usize {
+        let (store, dgs, failures, sn, fnm) = (store.clone(), dgs.clone(), failures.clone(), service_name.clone(), full_name.clone());
+        handles.push(std::thread::spawn(move || {
+            let (tx, _rx) = std::sync::mpsc::channel();
+            let mut chan = if t % 2 == 0 { Some(tx) } else { None };
+            let mut k = t;
+            let mut n = 0u64;
+            while std::time::Instant::now() < deadline {
+                let mut c = Case::default();
+                if let Err(f) = handle_datagram(&dgs[k % dgs.len()], &store, &sn, &fnm, &mut chan, &mut c) {
+                    failures.lock().unwrap().push(f);
+                    break;
+                }
+                k += 7;
+                n += 1;
+            }
+            n
+        }));
+    }
+    let mut total = 0;
+    for h in handles {
+        total += h.join().unwrap_or(0);
+    }
+    case.extra_evals = total;
+    case.nontrivial = true;
+    if let Some(f) = failures.lock().unwrap().first() {
+        return Err(f.clone());
+    }
+    ensure!(!store.is_poisoned(), "c14:lock-poisoned", "the record store lock is poisoned after concurrent handling");
     Ok(())
 }
 
 pub fn def() -> CheckDef {
     CheckDef {
         id: "C14",
-        rule: "(1) pure pipeline, proptest: a store pre-loaded by 0..7 random operations (as C13) plus a canary record; sequences of 1..19 datagrams drawn from {empty, 1..11 bytes, random bytes, reference encodings with hostile names and 0..8 mutations, valid queries, valid responses, responses under the watched service with hostile instance labels (non-UTF-8, 63 bytes, dots), 1000..9000-byte datagrams}; each datagram goes, step for step, through what the three receive loops do (responder: header peek with unwrap_or(true), parse, build_reply, build_bytes_vec_compressed; discovery: parse, add_response_to_resources (sync, or the async-tokio copy for every third response) under a real RwLock write guard with and without an on_discovery channel, or build_reply; application: get_known_services; one-shot resolver: header peek on a 4096-byte buffer, parse, answer scan). Oracle: no panic, lock not poisoned, every reply parses, the canary is still answered. (2) real sockets, sampled: a real SimpleMdnsResponder and ServiceDiscovery on loopback multicast receive 300 (6000 thorough) generated datagrams between two probe queries, and a real OneShotMdnsResolver issues queries while generated responses about the name it asks for (every RDATA kind, also empty RDATA under the asked types) arrive; violation iff a library thread panicked or the responder stops answering; skipped (no claim) when multicast is unusable. Non-trivial = a datagram shorter than 12 bytes or a parsed datagram with hostile names",
+        rule: "(1) pure pipeline, proptest: a store pre-loaded by 0..7 random operations (as C13) plus a canary record; sequences of 1..19 datagrams drawn from {empty, 1..11 bytes, random bytes, reference encodings with hostile names and 0..8 mutations, valid queries, valid responses, responses under the watched service with hostile instance labels (non-UTF-8, 63 bytes, dots), 1000..9000-byte datagrams}; each datagram goes, step for step, through what the three receive loops do (responder: header peek with unwrap_or(true), parse, build_reply, build_bytes_vec_compressed; discovery: parse, add_response_to_resources (sync, or the async-tokio copy for every third response) under a real RwLock write guard with and without an on_discovery channel, or build_reply; application: get_known_services; one-shot resolver: header peek on a 4096-byte buffer, parse, answer scan). Oracle: no panic, lock not poisoned, every reply parses, the canary is still answered. (1b) six threads run the same handling steps concurrently against one shared store for 300 ms (no panic, lock not poisoned; schedules are whatever the OS gives). (2) real sockets, sampled: a real SimpleMdnsResponder and ServiceDiscovery (sync), then the async-tokio responder and discovery on a current-thread runtime, on loopback multicast receive 300 (6000 thorough) generated datagrams between two probe queries, and a real OneShotMdnsResolver issues queries while generated responses about the name it asks for (every RDATA kind, also empty RDATA under the asked types) arrive; violation iff a library thread panicked or the responder stops answering; skipped (no claim) when multicast is unusable. Non-trivial = a datagram shorter than 12 bytes or a parsed datagram with hostile names",
         assumptions: vec![
             "the pure pipeline copies the loop bodies (simple_responder.rs, service_discovery.rs, oneshot_resolver.rs); an edit to the loops themselves is only visible to the socket section",
-            "reader/writer interleavings on the shared store are not explored",
+            "reader/writer interleavings on the shared store are only sampled (section concurrent), not explored systematically",
         ],
         sections: vec![
             Box::new(ReplayOnly { name: "fuzz-bytes", check: check_raw }),
             Box::new(PropSection { name: "pipeline", rule: "datagram sequences through the handling steps", strategy, cases: (60_000, 800_000), check }),
+            Box::new(EnumSection { name: "concurrent", rule: "six threads handle datagrams against one shared store for 300 ms", enumerate: enum_concurrent, check: check_concurrent, exhaustive: false }),
             Box::new(EnumSection { name: "sockets", rule: "real services on loopback multicast", enumerate: enum_socket, check: check_socket, exhaustive: false }),
         ],
     }
